@@ -144,8 +144,10 @@ def client_verdicts(rng, node, desc, nodespec, rec):
             for _ in range(4 if dtspec else 1):
                 payload = c04.gen_payload(rng, dtspec)[0]
                 cl = c04.oracle_call(lambda: cdt.validate(cdt.import_value(payload)))[0] == 'ok'
-                nd = c04.oracle_call(lambda: pobj.datatype.validate(pobj.datatype.import_value(payload),
-                                                                    previous=pobj.value))[0] == 'ok'
+                # the node's verdict as far as the described datainfo can express it (LimitsType: the tuple part;
+                # the order test of the pair belongs to the limit checks, see design_notes/C06.md)
+                nd = c04.oracle_call(lambda: c04.datainfo_validate(pobj.datatype)(
+                    pobj.datatype.import_value(payload), previous=pobj.value))[0] == 'ok'
                 dichecks.append({'m': mname, 'a': aname, 'client': cl, 'node': nd, 'payload': canonj(payload)})
             # the cached value, as a client would get it on activation
             r = c04.oracle_call(lambda: cdt.import_value(json.loads(json.dumps(pobj.export_value()))))
